@@ -99,5 +99,14 @@ theorem populate_modes (a : Actor) (now : Nat) : (a.populate now).modes = a.mode
   · rfl
   · exact get_modes a _ _ _ now
 
+/-- the inputs of one iteration of the actor loop -/
+structure StepIn where
+  env : Env
+  dgram : Option (Message × Addr)
+  msg : Option ApiMsg
+
+/-- any run of the actor loop -/
+def runSteps (a : Actor) (ins : List StepIn) : Actor := ins.foldl (fun a i => a.step i.env i.dgram i.msg) a
+
 end Actor
 end Mainline
